@@ -94,6 +94,52 @@ def gen_sevenzip() -> str:
     L.append("def consts : S2T.ArchiveLoop.Consts :=\n  { signatures := signatures, tarMagicOffset := %d, tarMagic := %s,\n"
              "    nested := nested, maxArchiveFileSize := %d, maxMemorySize := %d, max7zFileSize := %d }\n"
              % (tar_off, _b(tar_magic), max_entry, max_mem, max_7z))
+    # decoder set-up of `_decompress_lzma2` for EVERY property byte: the filter chain the source hands to
+    # lzma.LZMADecompressor, recorded by running the function itself against a stand-in `lzma` module
+    # (some d = [LZMA2 dict_size=d], none = [LZMA2 preset=6]; anything else is a note)
+    table = []
+    real_lzma = sz.lzma
+
+    class _Stop(Exception):
+        pass
+
+    class _Rec:
+        FORMAT_RAW, FORMAT_ALONE = real_lzma.FORMAT_RAW, real_lzma.FORMAT_ALONE
+        FILTER_LZMA2, FILTER_LZMA1, LZMAError = real_lzma.FILTER_LZMA2, real_lzma.FILTER_LZMA1, real_lzma.LZMAError
+
+        def __init__(self):
+            self.seen = None
+
+        def LZMADecompressor(self, format=None, filters=None, **kw):
+            self.seen = (format, filters, kw)
+            raise _Stop()
+
+    for pb in range(256):
+        rec = _Rec()
+        sz.lzma = rec
+        try:
+            sz.SevenZipReader.__new__(sz.SevenZipReader)._decompress_lzma2(b"\x00", bytes([pb]), None)
+            notes.append(f"_decompress_lzma2({pb}): no decoder was set up")
+        except _Stop:
+            pass
+        except Exception as e:
+            notes.append(f"_decompress_lzma2({pb}): raised {type(e).__name__} before setting up a decoder")
+        finally:
+            sz.lzma = real_lzma
+        fmt, flt, kw = rec.seen or (None, None, None)
+        if rec.seen is None:
+            table.append("none")
+        elif fmt == real_lzma.FORMAT_RAW and not kw and flt == [{"id": real_lzma.FILTER_LZMA2, "dict_size": flt[0].get("dict_size")}] \
+                and isinstance(flt[0]["dict_size"], int) and flt[0]["dict_size"] >= 0:
+            table.append(f"some {flt[0]['dict_size']}")
+        elif fmt == real_lzma.FORMAT_RAW and not kw and flt == [{"id": real_lzma.FILTER_LZMA2, "preset": 6}]:
+            table.append("none")
+        else:
+            table.append("none")
+            notes.append(f"_decompress_lzma2({pb}): decoder set-up outside the model: format={fmt} filters={flt} {kw}")
+    L.append("/-- `_decompress_lzma2`: the dictionary size handed to the decoder, per property byte 0..255, recorded from the\n"
+             "    source function itself (`none` = the filter `preset=6`) -/")
+    L.append("def lzma2DictTable : List (Option Nat) := " + lean_list(table) + "\n")
     L.append("/-- translator cross-check notes (runtime value vs. source text); must be empty -/")
     L.append("def notes : List String := " + lean_list(lean_str(n) for n in notes) + "\n")
     L.append("end S2T.Gen.SevenZip\n")
